@@ -233,7 +233,7 @@ func (fr *frame) runDefer(d *deferred) {
 			// Deferred call created a new state of panic.
 			r := recover()
 			switch r.(type) {
-			case pathEnd, unsupportedErr:
+			case pathEnd, unsupportedErr, parAbort:
 				panic(r)
 			}
 			fr.panicking = true
@@ -318,7 +318,11 @@ func visitInstr(fr *frame, instr ssa.Instruction) continuation {
 
 	case *ssa.Convert:
 		if sx, ok := fr.get(instr.X).(symv); ok {
-			fr.set(instr, symConv(instr.Type(), sx))
+			if bt, isB := instr.Type().Underlying().(*types.Basic); isB && bt.Kind() == types.String {
+				fr.set(instr, normStr(symstr(encodeRuneSym(sx))))
+			} else {
+				fr.set(instr, symConv(instr.Type(), sx))
+			}
 		} else {
 			fr.set(instr, conv(instr.Type(), instr.X.Type(), fr.get(instr.X)))
 		}
@@ -747,7 +751,7 @@ func runFrame(fr *frame) {
 		}
 		r := recover()
 		switch r.(type) {
-		case pathEnd, unsupportedErr:
+		case pathEnd, unsupportedErr, parAbort:
 			fr.block = nil
 			panic(r) // engine sentinel: unwind without running target defers
 		}
